@@ -25,7 +25,7 @@
 use crate::{
     common::{
         constants,
-        error::{Error, KeyErrorType},
+        error::{Error, HyperErrorType, KeyErrorType},
         hyper_client, logger,
         result::Result,
     },
@@ -781,7 +781,16 @@ pub async fn acquire_key(base_url: &Uri) -> Result<Key> {
             response.status(),
         )));
     }
-    hyper_client::read_response_body(response).await
+    // the response body carries the key: the generic deserialize error echoes the whole body,
+    // it must not travel into logs, status messages or /provision responses
+    hyper_client::read_response_body(response)
+        .await
+        .map_err(|e| match e {
+            Error::Hyper(HyperErrorType::Deserialize(_)) => Error::Key(
+                KeyErrorType::ParseKeyResponse(format!("{}", KeyAction::Acquire)),
+            ),
+            other => other,
+        })
 }
 
 pub async fn attest_key(base_url: &Uri, key: &Key) -> Result<()> {
